@@ -31,7 +31,7 @@ var (
 	siteHits    []int64
 	permCounter uint64
 	permSeed    uint64
-	stepLimit   int64 = 1 << 62
+	stepLimit   int64 = 50_000_000 // an operation passing more yield sites than this is declared non-terminating
 )
 
 type nonTermination struct{ steps int64 }
